@@ -355,6 +355,47 @@ def alternatives(e: ast.AST) -> list[ast.AST]:
     return [e]
 
 
+def fuse_zip(comp: ast.AST, fn: ast.AST) -> ast.AST:
+    """`[.. for a, b in zip(A, B) ..]` where B is (a local defined as) an element-wise image `[E(x) for x in A]` of the same A:
+    an equivalent comprehension over A alone with b replaced by E(a).  Anything else is returned unchanged."""
+    if not (isinstance(comp, (ast.ListComp, ast.GeneratorExp, ast.SetComp)) and len(comp.generators) == 1):
+        return comp
+    g = comp.generators[0]
+    if not (isinstance(g.target, ast.Tuple) and len(g.target.elts) == 2 and all(isinstance(e, ast.Name) for e in g.target.elts)
+            and isinstance(g.iter, ast.Call) and dotted_of(g.iter.func) == "zip" and len(g.iter.args) == 2 and not g.iter.keywords):
+        return comp
+    a, b = g.target.elts[0].id, g.target.elts[1].id
+    A, B = g.iter.args
+    for first, second, A_, B_ in ((a, b, A, B), (b, a, B, A)):
+        img = B_
+        # strip array wrappers and expand the local
+        for _ in range(3):
+            img = expand_locals(img, fn)
+            if isinstance(img, ast.Call) and dotted_of(img.func) in ("np.array", "numpy.array", "list", "tuple", "np.asarray") and len(img.args) == 1 and not img.keywords:
+                img = img.args[0]
+        ew = elementwise(img)
+        if ew is None or not same_expr(ew[1], U(A_)):
+            continue
+        elt_for = ew[0]
+
+        class S(ast.NodeTransformer):
+            def visit_Name(s, n: ast.Name):
+                if n.id == second and isinstance(n.ctx, ast.Load):
+                    e = _copy.deepcopy(elt_for)
+                    for x in ast.walk(e):
+                        if isinstance(x, ast.Name) and x.id == "_x":
+                            x.id = first
+                    return e
+                return n
+        new = _copy.deepcopy(comp)
+        new.generators[0].target = ast.Name(id=first, ctx=ast.Store())
+        new.generators[0].iter = _copy.deepcopy(A_)
+        new.elt = S().visit(new.elt)
+        new.generators[0].ifs = [S().visit(t) for t in new.generators[0].ifs]
+        return ast.fix_missing_locations(new)
+    return comp
+
+
 def CT(src: str, strip: bool = False) -> str:
     "canonical text of an expected expression (the index holds idiom-canonical trees: expected texts are canonicalised the same way)"
     t = ast.unparse(canon(ast.parse(src, mode="eval").body))
